@@ -593,6 +593,29 @@ impl St {
                     format!("ok {failures}")
                 })
             }
+            // An async `write` that is polled ONCE and then dropped (what `select!` / a timeout do to the
+            // losing branch): `ok <n>` if it was ready at once, `ok cancelled` if the future was dropped
+            // while its blocking operation was still in flight.  Sync writers: badarg.
+            "wwrite_cancel" => {
+                need(a, 2)?;
+                let id = parse_id(a[0], 'W')?;
+                let data = parse_bytes(a[1])?;
+                with_handle(&mut self.writers, &id, |h| match &mut h.k {
+                    WK::S(_) => Bad::Arg.line().to_string(),
+                    #[cfg(any(feature = "rt-async-std", feature = "rt-tokio"))]
+                    WK::A(w) => rt::block_on(async {
+                        use std::future::Future;
+                        let polled = {
+                            let mut fut = std::pin::pin!(w.write(&data));
+                            std::future::poll_fn(|cx| std::task::Poll::Ready(fut.as_mut().poll(cx))).await
+                        };
+                        match polled {
+                            std::task::Poll::Ready(r) => stdio_n(r),
+                            std::task::Poll::Pending => "ok cancelled".to_string(),
+                        }
+                    }),
+                })
+            }
             "wwrite1" => {
                 need(a, 2)?;
                 let id = parse_id(a[0], 'W')?;
